@@ -74,6 +74,11 @@ def run(tier, seed):
     # rounding-sensitive sub-sweep: inexact values expose re-association by a printer
     rprogs = P(3, 3, min_leaves=3, repeats=False, ops="+*", target_orders=(0, 1), max_order=1)
     rspecs = kernel_specs(rprogs, stride=3 if tier == "quick" else 1, offset=seed)
+    # literals that need all 17 significant digits / more than 2^53 / a small exponent
+    lprogs = P(2, 1, literals=("0.30000000000000004", "12345678901234567", "1e-5", "0.1"), min_leaves=2, ops="*+",
+               repeats=False, target_orders=(0, 1))
+    lprogs = [p for p in lprogs if any(l[0] == "t" for l in space.tree_leaves(p[2]))]
+    rspecs += kernel_specs(lprogs)
     units += nx_units(rspecs, {"cap": 4, "deviations": False, "with_ac": False, "rounding": True}, "1", "rounding",
                       batch=60)
     totals = [nx_run(run, units)]
